@@ -203,12 +203,20 @@ PENDING = {}
 COMMON_NOTE = ("Every run ends with a binding self-test: accepted trace lines are replayed to the trace specification with one recorded "
                "field corrupted each and must all be rejected (exit 2 otherwise; fields and counts in the evidence under binding_selftest).")
 EXTRA_NOTE = {
-    "C02": "The assembly model the theorem is proved on is itself bound to the code: for ~2 300 (thorough ~20 000) supported cells of every "
+    "C13": "Charged-current conjugation also runs on the asymptotic path (FFN0, FONLL-FFN0) in the quick tier.",
+    "C04": "Each sum rule is evaluated with the local part read at x0 in {0, 0.5, 0.9} (first moment = int reg + loc(x0) + int_0^x0 sing).",
+    "C01": "Nuclear-target cells in four card spellings are judged against the proton twin's assignment rotated by the harness; every massive NC class of a fixed-flavour cell must be built once per massive quark with that quark's mass (masses lines).",
+    "C18": "Parts of registry elements that are Python functions calling compiled kernels (asymptotic towers, massive wrappers) are evaluated with compilation on and off in two interpreters (closure lines).",
+    "C05": "The operators behind the factorisation-scale terms are also checked on a real grid: columns of ScaleVariations.compute_raw against an own quadrature of (P (x) p_l)(x_k), evaluated after other runners of the process (same nodes / other degree, other nodes, other size) computed theirs (Trace_C05op).",
+    "C15": "FileStore.tla puts the cycles into a history: several output objects, paths that are written again and again, objects modified in place after loading (theorems LoadIsCurrent, Independent; the named faulty variant memo_by_path is refuted by TLC); its behaviours are driven through real Output objects with repeating path strings and validated by Trace_FileStore.",
+    "C02": "A slice of the NC cells runs at other weak mixing angles than the lattice's own, so that every worker process meets several values of sin2thetaW one after the other. " 
+           "The assembly model the theorem is proved on is itself bound to the code: for ~2 300 (thorough ~20 000) supported cells of every "
            "order, scheme, heavyness, coupling restriction and a nuclear target the class keys, per-class summed parton weights and number of "
            "flavours of Kernels.Assemble(cell) are compared with the real Combiner.collect_elems() (Emit_Asm / Trace_Asm; departures are "
            "conformance notes counted in the evidence under assembly_conformance). Neutrino NC rows are also taken at a propagator ratio r/2^16 (weights far below 1e-8) and compared after exact rescaling, "
            "justified by the theorem C02_NeutrinoScaling checked by TLC at four ratios.",
-    "C06": "Unordered matching scales (a ZM-VFNS card whose threshold ratios swap two scales) must be refused; the number of flavours inside "
+    "C06": "Fixed-flavour theories are additionally run in one fresh process in the order NfFF = 5, 4, 3, 4, 5 (module-level state of the card upgrade must not leak into the next theory). " 
+           "Unordered matching scales (a ZM-VFNS card whose threshold ratios swap two scales) must be refused; the number of flavours inside "
            "the N3LO coefficient functions of flavour-tagged massless observables is bound through the relation TaggedIsRestricted.",
     "C17": "Predictions are taken on ESFResult and EXSResult objects, with operators in units of 1 and of 2^-40 and PDFs answering hasFlavor "
            "with bools and with 0/1; every spelling of the evolution method must give the running of its family (exact / expanded).",
@@ -225,7 +233,8 @@ EXTRA_NOTE = {
            "key omits a coordinate), and writes the behaviours of the specification on the real coordinate universe; each behaviour is driven "
            "through real runners in a fresh process and Trace_Session accepts it only if every slot digest (and the outcome of every "
            "construction) is a function of the runner's own configuration - every configuration also runs alone in a process.",
-    "C16": "The grammar of observable names (Names.tla: every well-formed and ~270 malformed names) is bound in the same check; the "
+    "C16": "An exception counts as an explicit rejection only if a raise statement raised it (innermost frame); a ValueError out of "
+           "list.index or a conversion is an internal error. The grammar of observable names (Names.tla: every well-formed and ~270 malformed names) is bound in the same check; the "
            "scale-variation switches are a lattice coordinate.",
 }
 
